@@ -38,6 +38,8 @@ class Exec:
         self.max_paths = max_paths
         self.decls, self.side, self.n = [], [], 0
         self.paths, self.cut = [], 0
+        self.proj = {}              # (base opaque id, projection text) -> opaque id: the same field read twice is the same value
+        self.lens = {}              # opaque id -> SMT Int term of its length (Vec / slice / str)
         self.debug_names = {}
         for m in re.finditer(r"debug (\w+) => (_\d+);", fn_text):
             self.debug_names.setdefault(m.group(1), m.group(2))
@@ -66,6 +68,23 @@ class Exec:
 
     def fresh_result(self, ok_payload, hint="res"):
         return self.fresh_enum("Result", 2, hint, {"Ok": ok_payload, "Err": ("int", self.fresh("Int", "err"))})
+
+    def proj_of(self, base, key):
+        if base[0] != "opaque":
+            return self.opq()
+        k = (base[1], key)
+        if k not in self.proj:
+            self.proj[k] = self.opq()
+        return self.proj[k]
+
+    def len_of(self, v):
+        if v[0] != "opaque":
+            v = self.opq()
+        if v[1] not in self.lens:
+            t = self.fresh("Int", "len")
+            self.side.append(f"(>= {t} 0)")
+            self.lens[v[1]] = t
+        return self.lens[v[1]]
 
     def opq(self):
         """fresh opaque value WITH an identity (so that 'the same value' can be recognised along a path)"""
@@ -142,7 +161,7 @@ class Exec:
                 return pv
             if base[0] == "variant" and base[2] == m.group(2):
                 return base[3][int(m.group(3))]
-            return self.opq()
+            return self.proj_of(base, f"as {m.group(2)}.{m.group(3)}")
         m = re.match(r"^\((.+)\.(\d+): (.*)\)$", place)                  # (_x.i: T) tuple / struct field by index
         if m:
             base = self.place(env, m.group(1))
@@ -153,6 +172,11 @@ class Exec:
                 i = int(m.group(2))
                 if i < len(vals):
                     return vals[i]
+            if base[0] == "opaque":
+                k = (base[1], f".{m.group(2)}")
+                if k not in self.proj:
+                    self.proj[k] = self.havoc(m.group(3))
+                return self.proj[k]
             return self.havoc(m.group(3))
         if re.match(r"^_\d+$", place):
             if place in env:
@@ -188,11 +212,20 @@ class Exec:
         if m:
             a = self.operand(env, m.group(1))
             return ("bool", f"(not {a[1]})") if a[0] == "bool" else self.havoc("bool")
+        m = re.match(r"^(?:PtrMetadata|Len)\((.*)\)$", rv)
+        if m:
+            v = self.operand(env, m.group(1)) if m.group(1).startswith(("copy", "move")) else self.place(env, m.group(1))
+            return ("int", self.len_of(v))
         m = re.match(r"^discriminant\((.*)\)$", rv)
         if m:
             v = self.place(env, m.group(1))
             if v[0] == "enum":
                 return ("int", v[2])
+            if v[0] == "opaque":
+                k = ("disc", v[1])
+                if k not in self.proj:
+                    self.proj[k] = self.fresh("Int", "disc")
+                return ("int", self.proj[k])
             return ("int", self.fresh("Int", "disc"))
         m = re.match(r"^\((.*),\)$", rv) or re.match(r"^\((.*, .*)\)$", rv)
         if m and not rv.startswith("(*") and ":" not in rv.split(",")[0]:
@@ -230,7 +263,13 @@ class Exec:
 
     # ---- path enumeration ----
     def run(self, init_env=None):
-        self._go("bb0", dict(init_env or {}), [], (), {})
+        env = dict(init_env or {})
+        hdr = self.header[: self.header.rindex("->")]
+        for m in re.finditer(r"(_\d+): ", hdr):
+            if m.group(1) not in env:
+                env[m.group(1)] = self.havoc(self.locs.get(m.group(1)))
+        self.arg_env = dict(env)
+        self._go("bb0", env, [], (), {})
         return self.paths
 
     def _go(self, bb, env, pc, events, visits):
@@ -307,7 +346,11 @@ class Exec:
                 if model or name in self.log_calls:
                     events = events + (("call", name, argv, res),)
                 return self._go(ret, env, pc, events, visits)
-            m = re.match(r"^(_\d+) = .* -> unwind .*$", st)
+            m = re.match(r"^(_\d+) = (?:core::panicking::)?(?:panic\w*|unreachable_display|expect_failed|unwrap_failed)\((.*)\) -> .*$", st)
+            if m:
+                self.paths.append(Path(pc, events, "panic", ("panic", m.group(2)[:60]), env))
+                return
+            m = re.match(r"^(_\d+) = .* -> (?:unwind .*|bb\d+)$", st)
             if m or st.startswith(("resume", "unwind")):
                 return
             m = re.match(r"^(_\d+) = (.*)$", st)
@@ -412,6 +455,21 @@ def m_from_residual(ex, argv):
     return ("enum", "Result", "1", {"Err": err})
 
 
+def m_len(ex, argv):
+    return ("int", ex.len_of(argv[0])) if argv else ex.havoc("usize")
+
+
+def m_is_empty(ex, argv):
+    return ("bool", f"(= {ex.len_of(argv[0])} 0)") if argv else ex.havoc("bool")
+
+
+def m_index(ex, argv):
+    """`v[i]`: logged with (value, index term, length term); the element is a projection of v"""
+    if len(argv) == 2 and argv[1][0] == "int":
+        return ex.proj_of(argv[0], f"[{argv[1][1]}]") if argv[0][0] == "opaque" else ex.opq()
+    return ex.opq()
+
+
 def m_eq(ex, argv):
     if len(argv) == 2 and argv[0][0] == "enum" and argv[1][0] == "enum":
         return ("bool", f"(= {argv[0][2]} {argv[1][2]})")
@@ -425,6 +483,6 @@ def m_ne(ex, argv):
     return ("bool", f"(not {r[1]})")
 
 
-COMMON_MODELS = {"eq": m_eq, "ne": m_ne, "clone": m_identity, "deref": m_identity, "as_ref": m_identity, "borrow": m_identity,
+COMMON_MODELS = {"len": m_len, "is_empty": m_is_empty, "index": m_index, "eq": m_eq, "ne": m_ne, "clone": m_identity, "deref": m_identity, "as_ref": m_identity, "borrow": m_identity,
                  "branch": m_try_branch, "from_residual": m_from_residual, "next": m_option,
                  "start_record": m_result_unit, "end_record": m_result_unit}
